@@ -1,11 +1,16 @@
 package harness
 
 import (
+	"context"
 	"fmt"
 	"runtime"
+	"sync"
+	"sync/atomic"
 	"testing"
 	"testing/synctest"
 	"time"
+
+	"github.com/lightninglabs/lightning-node-connect/gbn"
 )
 
 // C12: Close at every point of a connection's life. Scenario classes:
@@ -107,7 +112,7 @@ func TestGenC12(t *testing.T) {
 		}
 	}
 	// ---- (2) Close at every point of a connection's life ----
-	points := []string{"idle", "send-blocked", "recv-blocked", "mid-resend", "traffic", "both-blocked"}
+	points := []string{"idle", "send-blocked", "recv-blocked", "mid-resend", "traffic", "both-blocked", "recv-backlog"}
 	for _, point := range points {
 		for _, who := range []string{"client", "server", "both", "twice", "concurrent"} {
 			for _, transport := range []string{"working", "dead"} {
@@ -131,7 +136,7 @@ func TestGenC12(t *testing.T) {
 							return
 						}
 						deliver := func() {
-							if transport == "dead" {
+							if transport != "working" {
 								return
 							}
 							for k := 0; k < 20; k++ {
@@ -165,6 +170,21 @@ func TestGenC12(t *testing.T) {
 						case "recv-blocked":
 							s.recv(0)
 							s.recv(1)
+						case "recv-backlog":
+							// the peer's messages pile up unread on side 0 until its receive loop is
+							// stuck handing the next one to the application
+							for k := 0; k < n+2; k++ {
+								if sb, _ := s.busy(1); !sb {
+									s.send(1, []byte{byte(k), 2})
+								}
+								for j := 0; j < 20; j++ {
+									for x := 0; x < 2; x++ {
+										for s.canOp(x) {
+											s.op(x, "deliver")
+										}
+									}
+								}
+							}
 						case "traffic":
 							s.recv(1)
 							s.send(0, []byte("abc"))
@@ -189,7 +209,14 @@ func TestGenC12(t *testing.T) {
 							s.closed[0] = true
 							for k := 0; k < 3; k++ {
 								s.wg.Add(1)
-								go func() { defer s.wg.Done(); _ = s.conn[0].Close() }()
+								go func() {
+									defer s.wg.Done()
+									_ = s.conn[0].Close()
+									s.mu.Lock()
+									s.closeRetN[0]++
+									s.closeRet[0] = s.closeRetN[0] == 3
+									s.mu.Unlock()
+								}()
 							}
 						}
 						deliver()
@@ -216,6 +243,7 @@ func TestGenC12(t *testing.T) {
 						}
 						// all calls that were blocked on a closed side have returned
 						for _, x := range closers {
+							q.check(s.closeReturned(x), fmt.Sprintf("c12:close-not-bounded:%s,%s", point, transport), desc)
 							sb, rb := s.busy(x)
 							q.check(!sb && !rb, fmt.Sprintf("c12:blocked-call-not-woken:%s", point), desc)
 							// later calls fail
@@ -235,7 +263,19 @@ func TestGenC12(t *testing.T) {
 							s.advance(2 * time.Second)
 							_, rb := s.busy(peer)
 							sbp, _ := s.busy(peer)
-							q.check(!rb && !sbp && isClosedQuick(s, peer), fmt.Sprintf("c12:peer-not-told:%s", point), desc)
+							told := !rb && !sbp && isClosedQuick(s, peer)
+							if point == "recv-backlog" {
+								// the peer's application first obtains the messages it had not read yet;
+								// the FIN behind them is seen once they are drained
+								for k := 0; k < n+4 && !told; k++ {
+									deliver()
+									s.advance(100 * time.Millisecond)
+									if _, rb := s.busy(peer); !rb {
+										told = isClosedQuick(s, peer)
+									}
+								}
+							}
+							q.check(told, fmt.Sprintf("c12:peer-not-told:%s", point), desc)
 						}
 						for _, g := range s.finish(base) {
 							q.fail("c12:leak:"+g, desc())
@@ -249,6 +289,108 @@ func TestGenC12(t *testing.T) {
 					q.stat("distinct_nontrivial", 1)
 				}
 			}
+		}
+	}
+	// ---- (2b) Close while the transport's send hangs (real time: Close holds its once-lock while the FIN send
+	// waits for its deadline, and a goroutine blocked on a mutex stops a bubble's clock) ----
+	{
+		var wg sync.WaitGroup
+		var mu sync.Mutex
+		type outc struct {
+			name     string
+			returned bool
+			took     time.Duration
+			setup    bool
+		}
+		var outs []outc
+		for _, point := range []string{"idle", "send-blocked"} {
+			for _, who := range []int{0, 1} {
+				wg.Add(1)
+				go func(point string, who int) {
+					defer wg.Done()
+					oc := outc{name: fmt.Sprintf("%s,closer=%d", point, who)}
+					defer func() { mu.Lock(); outs = append(outs, oc); mu.Unlock() }()
+					ctx, cancel := context.WithCancel(context.Background())
+					defer cancel()
+					var blocked atomic.Bool
+					ab, ba := make(chan []byte, 4096), make(chan []byte, 4096)
+					mk := func(out, in chan []byte) (func(context.Context, []byte) error, func(context.Context) ([]byte, error)) {
+						return func(ctx context.Context, b []byte) error {
+								if blocked.Load() {
+									<-ctx.Done()
+									return ctx.Err()
+								}
+								select {
+								case out <- append([]byte{}, b...):
+									return nil
+								case <-ctx.Done():
+									return ctx.Err()
+								}
+							}, func(ctx context.Context) ([]byte, error) {
+								select {
+								case b := <-in:
+									return b, nil
+								case <-ctx.Done():
+									return nil, ctx.Err()
+								}
+							}
+					}
+					var conns [2]*gbn.GoBackNConn
+					var hs sync.WaitGroup
+					hs.Add(2)
+					go func() {
+						defer hs.Done()
+						sf, rf := mk(ba, ab)
+						if c, err := gbn.NewServerConn(ctx, sf, rf); err == nil {
+							conns[1] = c
+						}
+					}()
+					go func() {
+						defer hs.Done()
+						sf, rf := mk(ab, ba)
+						if c, err := gbn.NewClientConn(ctx, 2, sf, rf); err == nil {
+							conns[0] = c
+						}
+					}()
+					hs.Wait()
+					if conns[0] == nil || conns[1] == nil {
+						return
+					}
+					oc.setup = true
+					blocked.Store(true)
+					if point == "send-blocked" {
+						go func() { _ = conns[who].Send([]byte("x")) }()
+						time.Sleep(50 * time.Millisecond)
+					}
+					t0 := time.Now()
+					done := make(chan struct{})
+					go func() { _ = conns[who].Close(); close(done) }()
+					select {
+					case <-done:
+						oc.returned = true
+					case <-time.After(4 * time.Second): // FIN send timeout is 1 s
+					}
+					oc.took = time.Since(t0)
+					cancel()
+					select {
+					case <-done:
+					case <-time.After(2 * time.Second):
+					}
+					_ = conns[1-who].Close()
+				}(point, who)
+			}
+		}
+		wg.Wait()
+		for _, oc := range outs {
+			q.stat("close_blocked_transport_realtime", 1)
+			if !oc.setup {
+				q.fail("c12:setup-handshake-failed", "real-time "+oc.name)
+				continue
+			}
+			oc := oc
+			q.check(oc.returned, "c12:close-not-bounded:"+oc.name+",transport=blocked", func() string {
+				return fmt.Sprintf("real time, transport send hangs until its context ends: Close did not return within 4 s (FIN send timeout 1 s); waited %v", oc.took)
+			})
 		}
 	}
 	// ---- (3) giving up during the handshake: cancelling the context makes the constructors return ----
@@ -281,5 +423,5 @@ func TestGenC12(t *testing.T) {
 		}
 		q.stat("distinct_nontrivial", 1)
 	}
-	q.sample("close points {idle, send-blocked, recv-blocked, mid-resend, traffic, both-blocked} x closer {client, server, both, twice, concurrent} x transport {working, dead} x keepalive {off,on}; FIN right after a retried handshake; context cancelled during the handshake")
+	q.sample("close points {idle, send-blocked, recv-blocked, mid-resend, traffic, both-blocked, recv-backlog (n+1 unread messages)} x closer {client, server, both, twice, concurrent} x transport {working, dead} x keepalive {off,on}, Close must have returned 3 s later; Close over a transport whose send hangs (real time, 4 cases); FIN right after a retried handshake; context cancelled during the handshake")
 }
